@@ -1,0 +1,64 @@
+package dht
+
+import (
+	"context"
+	"errors"
+	"sync"
+	"time"
+
+	"golang.org/x/time/rate"
+)
+
+// x/time/rate credits the interval since its last update a second time when a caller presents an
+// instant older than that update, which callers racing for the limiter's lock do. Reading the
+// clock and calling the limiter under one lock keeps the instants in order.
+var sendLimiterMu sync.Mutex
+
+func limiterAllow(l *rate.Limiter) bool {
+	sendLimiterMu.Lock()
+	defer sendLimiterMu.Unlock()
+	return l.AllowN(time.Now(), 1)
+}
+
+func limiterGiveBack(l *rate.Limiter) {
+	sendLimiterMu.Lock()
+	defer sendLimiterMu.Unlock()
+	l.AllowN(time.Now(), -1)
+}
+
+func limiterWait(ctx context.Context, l *rate.Limiter) error {
+	select {
+	case <-ctx.Done():
+		return ctx.Err()
+	default:
+	}
+	sendLimiterMu.Lock()
+	now := time.Now()
+	r := l.ReserveN(now, 1)
+	sendLimiterMu.Unlock()
+	if !r.OK() {
+		return errors.New("rate: Wait(n=1) exceeds limiter's burst")
+	}
+	cancel := func() {
+		sendLimiterMu.Lock()
+		r.CancelAt(time.Now())
+		sendLimiterMu.Unlock()
+	}
+	delay := r.DelayFrom(now)
+	if deadline, ok := ctx.Deadline(); ok && now.Add(delay).After(deadline) {
+		cancel()
+		return errors.New("rate: Wait(n=1) would exceed context deadline")
+	}
+	if delay == 0 {
+		return nil
+	}
+	t := time.NewTimer(delay)
+	defer t.Stop()
+	select {
+	case <-t.C:
+		return nil
+	case <-ctx.Done():
+		cancel()
+		return ctx.Err()
+	}
+}
